@@ -156,7 +156,7 @@ class C02Update:
         lap = kw["psi_laplacian"] @ psi
         if not (np.all(np.isfinite(psi)) and np.all(np.isfinite(mu)) and np.all(np.isfinite(lap))):
             return []
-        if max(float(np.max(np.abs(psi), initial=0)), float(np.max(np.abs(mu), initial=0)), float(np.max(np.abs(lap), initial=0))) > 1e100:
+        if max(float(np.max(np.abs(psi), initial=0)), float(np.max(np.abs(mu), initial=0)), float(np.max(np.abs(lap), initial=0))) > 1e40:
             self.overflow += 1
             return []  # a blown-up state: squares overflow, outside the property's quantifier
         try:
@@ -442,7 +442,7 @@ class C12TimeStep:
             if not a[1]:
                 break
         exp = self.tentative
-        for r, (dt_a, refused, inj) in enumerate(first_iter):
+        for r, (dt_a, refused, inj, _it) in enumerate(first_iter):
             if r == 1:
                 exp = first_iter[0][0] * m  # retries are exact multiples of the first attempt
             if abs(dt_a - exp) > (1e-12 if r == 0 else 4e-16 * r) * abs(exp):
